@@ -251,11 +251,15 @@ def dofs(grids):
     return np.array([6 * g + d for g in grids for d in range(6)], dtype=int)
 
 
-def cb_reduce(S, bgrids, nq=None):
+def cb_reduce(S, bgrids, nq=None, dK=None):
     """Craig-Bampton reduction; b-set = 6 local DOF of each grid of `bgrids` in that order,
     interior grids in ascending order.  nq None = keep all fixed-interface modes.
-    Returns dict(M, K, nb, nq, psi, phi, lam, T, b, i, igrids)."""
+    dK: optional symmetric matrix (local physical DOF) added to the stiffness before the
+    reduction (grounding springs).
+    Returns dict(M, K, nb, nq, psi, phi, lam, T, b, i, igrids, ...)."""
     K, M = S.km_local()
+    if dK is not None:
+        K = K + dK
     bgrids = [int(g) for g in bgrids]
     igrids = [g for g in range(S.n) if g not in bgrids]
     b = dofs(bgrids)
